@@ -224,7 +224,7 @@ def parse_dump(d):
 # expressions: AST, text, s-expression
 #   ("root",) ("ctx",) ("step", base, ds, axis, ntest, [pred]) ("filter", e, [pred]) ("or"|"and"|"union", a, b)
 #   ("cmp", op, a, b) ("ar", op, a, b) ("neg", a) ("lit", bytes) ("num", text) ("fn", name, [args])
-#   ntest: ("name", pfx|None, name) ("star", pfx|None) ("node",) ("text",)
+#   ntest: ("name", pfx|None, name) ("star", pfx|None) ("node",) ("text",) ("any",) = the test of "." and ".."
 # ------------------------------------------------------------------------------------------------
 AXES = ["child", "descendant", "descendant-or-self", "parent", "ancestor", "ancestor-or-self", "following",
         "following-sibling", "preceding", "preceding-sibling", "self", "attribute", "namespace"]
@@ -242,7 +242,7 @@ def r_ntest(nt):
         return (nt[1] + ":" if nt[1] else "") + nt[2]
     if nt[0] == "star":
         return (nt[1] + ":" if nt[1] else "") + "*"
-    return nt[0] + "()"
+    return ("node" if nt[0] == "any" else nt[0]) + "()"
 
 
 def r_lit(b):
@@ -259,7 +259,18 @@ def prec_of(e):
     return 9
 
 
-def render(e, abbrev=True):
+def render(e, abbrev=True, top=True):
+    """text of the expression; a bare "/" that is an operand is written "(/)" (after "/" the lexer reads "*", "mod" ...
+    as a name test)"""
+    s = render1(e, abbrev)
+    return s
+
+
+def operand(e, abbrev):
+    return "(/)" if e[0] == "root" else render1(e, abbrev)
+
+
+def render1(e, abbrev=True):
     k = e[0]
     if k == "root":
         return "/"
@@ -267,9 +278,9 @@ def render(e, abbrev=True):
         return "."
     if k == "step":
         base, ds, ax, nt, ps = e[1], e[2], e[3], e[4], e[5]
-        if abbrev and ax == "self" and nt == ("node",) and not ps:
+        if ax == "self" and nt == ("any",):
             st = "."
-        elif abbrev and ax == "parent" and nt == ("node",) and not ps:
+        elif ax == "parent" and nt == ("any",):
             st = ".."
         elif abbrev and ax == "child":
             st = r_ntest(nt)
@@ -294,14 +305,14 @@ def render(e, abbrev=True):
         op = {"union": "|"}.get(k, k) if k in ("or", "and", "union") else e[1]
         a, b = (e[1], e[2]) if k in ("or", "and", "union") else (e[2], e[3])
         p = prec_of(e)
-        sa, sb = render(a, abbrev), render(b, abbrev)
+        sa, sb = operand(a, abbrev), operand(b, abbrev)
         if prec_of(a) < p:
             sa = "(" + sa + ")"
         if prec_of(b) <= p:
             sb = "(" + sb + ")"
         return sa + " " + op + " " + sb
     if k == "neg":
-        s = render(e[1], abbrev)
+        s = operand(e[1], abbrev)
         if prec_of(e[1]) < 8:
             s = "(" + s + ")"
         return "- " + s
@@ -513,10 +524,10 @@ class Parser:
     def step(self, base, ds):
         if self.is_op("."):
             self.eat()
-            return ("step", base, ds, "self", ("node",), [])
+            return ("step", base, ds, "self", ("any",), [])
         if self.is_op(".."):
             self.eat()
-            return ("step", base, ds, "parent", ("node",), [])
+            return ("step", base, ds, "parent", ("any",), [])
         ax = "child"
         if self.is_op("@"):
             self.eat()
@@ -650,12 +661,12 @@ class ExprGen:
             ds = rng.random() < (0.12 if not simple else 0.03)
             ax = self.axis() if not simple or rng.random() < 0.2 else "child"
             r = rng.random()
-            if r < 0.05:
-                nt, ax = ("node",), rng.choice(["self", "parent"])
+            if r < 0.07:
+                nt, ax = ("any",), rng.choice(["self", "parent"])
             else:
                 nt = self.name_test(cur if ax == "child" and not ds else "?")
             ps = []
-            if depth > 0:
+            if depth > 0 and nt != ("any",):
                 while rng.random() < (0.3 if not simple else 0.1) and len(ps) < 3:
                     key = (nt[1] or "a", nt[2]) if nt[0] == "name" else None
                     ps.append(self.pred(depth, key))
